@@ -365,8 +365,13 @@ def run(ctx):
                 continue            # (the enum branch only probes for a number and falls back to the name: not a converter)
             n_conv += 1
             tr = next((x for x, fld in chain if isinstance(x, ast.Try) and fld == "body"), None)
+            def hnames(h_):
+                ty = h_.type
+                if isinstance(ty, ast.Name) and isinstance(prog.module_assigns(_f.module).get(ty.id), ast.Tuple):
+                    ty = prog.module_assigns(_f.module)[ty.id]          # a named tuple of exception classes
+                return {norm(e) for e in (ty.elts if isinstance(ty, ast.Tuple) else [ty])}
             c_ok = tr is not None and any(
-                {"ValueError", "SyntaxError"} <= {norm(e) for e in (h.type.elts if isinstance(h.type, ast.Tuple) else [h.type])} and
+                {"ValueError", "SyntaxError"} <= hnames(h) and
                 any(isinstance(x, ast.Call) and isinstance(x.func, ast.Name) and x.func.id == "exit" for x in ast.walk(h)) for h in tr.handlers if h.type is not None)
             if not c_ok:
                 break
